@@ -243,7 +243,7 @@ func init() {
 func init() {
 	reg(&propCfg{
 		ID:      "C18",
-		Pkgs:    []string{"tax"},
+		Pkgs:    []string{"tax", "regimes/es", "regimes/pt", "regimes/fr"},
 		Lenient: []string{"tax", "cbc"},
 		Stages:  []stage{{Name: "leaf-rules", Harness: `^H_C18_`}},
 		Functions: []string{"tax.Extensions.Validate", "cbc.(*Definition).HasCode", "cbc.(*Definition).CodeDef", "tax.ExtensionForKey (native registry)", "regexp matching of the definition's pattern (NFA)"},
